@@ -677,7 +677,7 @@ def _sub(inp, pos):
     return inp[pos:pos + 1]
 
 
-def _layout_checks(ctx, e, m, x, single, h, w, seed, coils, deep, only=None):
+def _layout_checks(ctx, e, m, x, single, h, w, seed, coils, deep, only=None, batch_too=True):
     """the caller's tensors in several memory layouts: the forward must leave them as they were, give the same output as for
     the plain layout, give it again on a second evaluation of the very same tensors, and give it for a sample evaluated alone —
     as a view into the batch tensors — after the batch was evaluated"""
@@ -719,7 +719,7 @@ def _layout_checks(ctx, e, m, x, single, h, w, seed, coils, deep, only=None):
             yield Violation(f"{e.name}:nonrepeatable",
                             f"{e.name}: a second evaluation of the very same input tensors (layout `{layout}`) differs (max rel {_rel(out1, out2):.2e})",
                             dict(rep, observed_rel_diff=_rel(out1, out2)))
-        if opt or deep:
+        if opt or (deep and batch_too):
             # alone after batch, sharing the batch's storage
             ctx.count((e.name, "alone-after-batch", layout, h, w), True, bucket=f"oracle/alone-after-batch/{layout}")
             items = [_inputs(e, 1, h, w, seed + 40, coils=coils), x, _inputs(e, 1, h, w, seed + 41, coils=coils)]
@@ -788,7 +788,7 @@ def _check_entry(ctx, e, deep, search=False):
             yield Violation(f"{e.name}:nonrepeatable", f"{e.name}: repeated evaluation of the same input differs (max rel {_rel(single, again):.2e})",
                             {"op": "repeat", "entry": e.name, "h": h, "w": w, "seed": seed})
         yield from _history_checks(ctx, e, m, x, single, h, w, seed, coils, deep)
-        yield from _layout_checks(ctx, e, m, x, single, h, w, seed, coils, deep)
+        yield from _layout_checks(ctx, e, m, x, single, h, w, seed, coils, deep, batch_too=(h, w) == sizes[0])
         # (a) batch of k vs alone; companions of ordinary, extreme, zero magnitude, or copies of the sample itself
         configs = [(k, pos, sc) for k in ((2, 3, 4) if deep else (2, 3)) for pos in range(k) for sc in (1.0, 1e4, 1e-4, 0.0, "dup")]
         if not deep:
